@@ -245,12 +245,23 @@ struct Trk : public RunBase, public TrkView, public TrkController
 };
 
 // functor taking a bound reference to a trackable (bind(F2, std::ref(t)))
+// (the object bound with std::ref / std::cref must arrive as that very object: not a copy, not a dead temporary)
+inline void check_bound_object(const void* got, const void* expected)
+{
+  if (got != expected)
+  {
+    std::fprintf(stderr, "harness: an object bound by reference arrived as another object (%p, bound %p)\n", got, expected);
+    std::abort();
+  }
+}
 struct F2
 {
   F f;
-  explicit F2(int fid) : f(fid) {}
-  int operator()(int a, Trk&) const
+  const void* bound;
+  explicit F2(int fid, const void* b) : f(fid), bound(b) {}
+  int operator()(int a, Trk& t) const
   {
+    check_bound_object(&t, bound);
     int fid = f.fid;
     return invoke_leaf(fid, a);
   }
@@ -258,9 +269,36 @@ struct F2
 struct F2V
 {
   F f;
-  explicit F2V(int fid) : f(fid) {}
-  void operator()(int a, Trk&) const
+  const void* bound;
+  explicit F2V(int fid, const void* b) : f(fid), bound(b) {}
+  void operator()(int a, Trk& t) const
   {
+    check_bound_object(&t, bound);
+    int fid = f.fid;
+    invoke_leaf(fid, a);
+  }
+};
+// the std::cref twins (odd functor ids)
+struct F2C
+{
+  F f;
+  const void* bound;
+  explicit F2C(int fid, const void* b) : f(fid), bound(b) {}
+  int operator()(int a, const Trk& t) const
+  {
+    check_bound_object(&t, bound);
+    int fid = f.fid;
+    return invoke_leaf(fid, a);
+  }
+};
+struct F2CV
+{
+  F f;
+  const void* bound;
+  explicit F2CV(int fid, const void* b) : f(fid), bound(b) {}
+  void operator()(int a, const Trk& t) const
+  {
+    check_bound_object(&t, bound);
     int fid = f.fid;
     invoke_leaf(fid, a);
   }
@@ -819,10 +857,18 @@ struct Interp
       Trk* t = get(T, idx(p[2]));
       if (!t)
         return 1;
+      if (fid % 2 == 1)
+      {
+        if constexpr (isV)
+          dst = SlotV(sigc::bind(F2CV(fid, t), std::cref(*t)));
+        else
+          dst = SlotI(sigc::bind(F2C(fid, t), std::cref(*t)));
+        return 0;
+      }
       if constexpr (isV)
-        dst = SlotV(sigc::bind(F2V(fid), std::ref(*t)));
+        dst = SlotV(sigc::bind(F2V(fid, t), std::ref(*t)));
       else
-        dst = SlotI(sigc::bind(F2(fid), std::ref(*t)));
+        dst = SlotI(sigc::bind(F2(fid, t), std::ref(*t)));
       return 0;
     }
     if (k == "ownT" && p.size() == 3)
